@@ -150,6 +150,7 @@ def _field_task(nonuniform, sizes, comps):
         V = L.volume_fn(L.width_fn(cfg, sl))
         mk = lambda red: FieldDetector(name=f"fd{int(red)}", reduce_volume=red, components=comps, switch=L.on_switch()).place_on_grid(sl, cfg, L.key())  # noqa: E731
         (ds, dr), t_arr, t, k, rows = L.symbolic_schedule([mk(False), mk(True)], inp)
+        (ds, dr), V = L.cut_volume_weights([ds, dr], V, sizes)
         E, H = L.fresh_fields(sizes, inp=inp)
         C = len(comps)
         S0 = A.fresh_array("S0", (rows, C, *sizes))
@@ -230,7 +231,7 @@ def _phasor_task(nonuniform, sizes, comps, nfreq, mode, inverse):
         sl = L.region(shape, sizes, inp)
         V = L.volume_fn(L.width_fn(cfg, sl))
         dets, T, win = _phasor_pair(cfg, sl, comps, nfreq, inverse, mode, [(False, inverse), (True, inverse)], inp)
-        ds, dr = dets
+        (ds, dr), V = L.cut_volume_weights(dets, V, sizes)
         t = sym_int("t", lo=0)
         c.assume((t + 1 <= T).z)
         inp.scalar("t", t)
